@@ -757,14 +757,7 @@ func (g *gen) sw(depth int) TNode {
 			if cd.Not || cd.Hlp == "len" || cd.Hlp == "cap" {
 				cd = Cond{L: "si", Op: "==", R: "1"}
 			}
-			if cd.Hlp == "" && len(cd.Op) != 2 {
-				// the case expression recognises two-character operators only
-				cd.Op = pick(g.r, []string{"==", "!=", ">=", "<="})
-				if strings.HasPrefix(cd.L, "sb") || strings.HasPrefix(cd.R, "sb") || strings.Contains(cd.L+cd.R, "AllowBuy") || strings.Contains(cd.L+cd.R, "Name") || strings.Contains(cd.L+cd.R, "Comment") ||
-					cd.L == "sy" || cd.R == "sy" || cd.L == "bv" || cd.L == "bs" || cd.R == "bv" || cd.R == "bs" {
-					cd.Op = pick(g.r, []string{"==", "!="})
-				}
-			}
+			// (all six operators: since repair the case expression recognises the one-character ones too)
 			s.Cases = append(s.Cases, Case{C: cd, Body: g.block(depth + 1)})
 		}
 	}
